@@ -1,0 +1,42 @@
+//go:build verif
+
+package pointindex
+
+import (
+	"github.com/pdok/texel/intgeom"
+	"github.com/pdok/texel/morton"
+)
+
+// Exports for the verification harness (/verif). Add-only, compiled only with -tags verif.
+
+// VerifGrid returns the integer extent, the deepest resolution and the deepest level of the index.
+func VerifGrid(ix *PointIndex) (extent intgeom.Extent, deepestRes intgeom.M, deepestLevel Level) {
+	return ix.intExtent, ix.deepestRes, ix.deepestLevel
+}
+
+// VerifLineIntersects exposes lineIntersects.
+func VerifLineIntersects(line intgeom.Line, extent intgeom.Extent) bool {
+	return lineIntersects(line, extent)
+}
+
+// VerifSnapClosestPoints exposes snapClosestPoints, returning the (int) centroids per level.
+func VerifSnapClosestPoints(ix *PointIndex, line intgeom.Line, levels []Level) map[Level][]intgeom.Point {
+	levelMap := make(map[Level]any, len(levels))
+	for _, l := range levels {
+		levelMap[l] = struct{}{}
+	}
+	result := make(map[Level][]intgeom.Point)
+	for level, quadrants := range ix.snapClosestPoints(line, levelMap) {
+		points := make([]intgeom.Point, len(quadrants))
+		for i := range quadrants {
+			points[i] = quadrants[i].intCentroid
+		}
+		result[level] = points
+	}
+	return result
+}
+
+// VerifGetQuadrantZs exposes getQuadrantZs.
+func VerifGetQuadrantZs(parentZ morton.Z) [4]morton.Z {
+	return getQuadrantZs(parentZ)
+}
